@@ -7,6 +7,7 @@ import (
 	"testing"
 	"testing/synctest"
 	"time"
+	_ "time/tzdata" // named zones with daylight saving, available offline
 
 	"github.com/pip-services3-gox/pip-services3-expressions-gox/calculator"
 	"github.com/pip-services3-gox/pip-services3-expressions-gox/calculator/functions"
@@ -26,6 +27,12 @@ type propC08 struct{}
 func init() { Register(propC08{}) }
 
 func (propC08) ID() string { return "C08" }
+
+var c08Zones = []string{"America/New_York", "Europe/Berlin", "Australia/Lord_Howe", "America/Sao_Paulo", "Pacific/Apia", "Asia/Kolkata"}
+
+// c08Days are civil dates on or next to daylight-saving transitions of those zones.
+var c08Days = [][3]int{{2021, 3, 14}, {2021, 11, 7}, {1987, 4, 5}, {2021, 3, 28}, {2021, 10, 31}, {2021, 4, 4}, {2021, 10, 3},
+	{2018, 11, 4}, {2018, 2, 18}, {2011, 12, 30}, {2011, 12, 29}, {2011, 12, 31}, {2021, 3, 13}, {2021, 3, 15}}
 
 var c08Names = []string{"Ticks", "TimeSpan", "Now", "Date", "DayOfWeek", "Min", "Max", "Sum", "If", "Choose", "E", "Pi", "Rnd", "Random",
 	"Abs", "Acos", "Asin", "Atan", "Exp", "Log", "Ln", "Log10", "Ceil", "Ceiling", "Floor", "Round", "Trunc", "Truncate", "Cos", "Sin", "Tan",
@@ -99,11 +106,23 @@ func c08CallText(r *Rand) string {
 func (propC08) Gen(r *Rand) *Plan {
 	p := &Plan{Config: map[string]string{}}
 	p.Config["zone"] = fmt.Sprint(r.Range(-12*4, 14*4) * 900) // quarter-hour offsets -12h .. +14h
+	if r.Bool(0.3) {
+		// a real zone with daylight saving (and Lord Howe's half-hour shift, Apia's skipped day)
+		p.Config["zone"] = r.Pick(c08Zones)
+	}
 	p.Config["ops"] = r.Pick([]string{"unsafe", "unsafe", "safe"})
 	ntasks := r.Range(1, 3)
+	if r.Bool(0.006) {
+		// volume: very many draws in one operation, alone in its run (a draw outside [0,1) may be
+		// one in tens of millions)
+		p.Tasks = []TaskPlan{{Ops: []Op{{Op: "rndbulk", S: r.Pick([]string{"Rnd", "Random"}), J: 600_000}}}}
+		p.Policy = "serial"
+		return p
+	}
 	for t := 0; t < ntasks; t++ {
 		tp := TaskPlan{}
 		for i, n := 0, r.Range(1, 6); i < n; i++ {
+
 			switch r.Weighted([]int{4, 3, 3, 4, 2, 8, 1}) {
 			case 0:
 				tp.Ops = append(tp.Ops, Op{Op: "now", S: flipCase(r, "Now"), I: r.Intn(2)})
@@ -113,10 +132,18 @@ func (propC08) Gen(r *Rand) *Plan {
 				tp.Ops = append(tp.Ops, Op{Op: "rnd", S: flipCase(r, r.Pick([]string{"Rnd", "Random"})), I: r.Intn(2), J: r.Range(1, 5)})
 			case 3:
 				y, m, d := r.Range(1900, 2100), r.Range(1, 12), r.Range(1, 28)
+				if r.Bool(0.4) {
+					day := c08Days[r.Intn(len(c08Days))]
+					y, m, d = day[0], day[1], day[2]
+				}
 				vs := []Val{VInt(y), VInt(m), VInt(d), VInt(r.Range(0, 23)), VInt(r.Range(0, 59)), VInt(r.Range(0, 59))}
 				tp.Ops = append(tp.Ops, Op{Op: "date", S: flipCase(r, "Date"), I: r.Intn(2), Vs: vs[:r.PickInt([]int{3, 3, 4, 5, 6, 6})]})
 			case 4:
 				y, m, d := r.Range(1900, 2100), r.Range(1, 12), r.Range(1, 28)
+				if r.Bool(0.4) {
+					day := c08Days[r.Intn(len(c08Days))]
+					y, m, d = day[0], day[1], day[2]
+				}
 				tp.Ops = append(tp.Ops, Op{Op: "dow", S: flipCase(r, "DayOfWeek"), I: r.Intn(2), Vs: []Val{VInt(y), VInt(m), VInt(d)}})
 			case 5:
 				n := r.Range(0, 8)
@@ -174,9 +201,16 @@ func (propC08) Exec(p *Plan, x *Ctx) *Outcome {
 
 func c08Run(p *Plan, x *Ctx, out *Outcome) {
 	run := NewRun(0)
-	zoneOff, _ := strconv.Atoi(p.Cfg("zone", "0"))
+	zoneOff, zerr := strconv.Atoi(p.Cfg("zone", "0"))
+	loc := time.FixedZone("SIM", zoneOff)
+	namedZone := false
+	if zerr != nil {
+		if l, err := time.LoadLocation(p.Cfg("zone", "UTC")); err == nil {
+			loc, namedZone = l, true
+		}
+	}
 	oldLocal := time.Local
-	time.Local = time.FixedZone("SIM", zoneOff)
+	time.Local = loc
 	defer func() { time.Local = oldLocal }()
 	ops := opsManager(p.Cfg("ops", "unsafe"))
 	start := time.Now()
@@ -261,6 +295,42 @@ func c08Run(p *Plan, x *Ctx, out *Outcome) {
 						r.extra = append(r.extra, e.res)
 						r.extraErr = append(r.extraErr, e.err)
 					}
+				case "rndbulk":
+					f := funcs.FindByName(o.S)
+					r.found = f != nil
+					if f == nil {
+						r.done = true
+						continue
+					}
+					n := o.J
+					if x.Replay {
+						// replays draw up to 100 times as many values (stopping at the first bad one): should the
+						// code under test have brought its own, unseeded random source, reproduction is statistical
+						n *= 100
+					}
+					func() {
+						defer func() {
+							if pv := recover(); pv != nil {
+								r.panicV = pv
+							}
+							r.done = true
+						}()
+						for k := 0; k < n; k++ {
+							if k%4096 == 0 {
+								run.ResetOpSteps()
+								Heartbeat()
+							}
+							v, err := f.Calculate(nil, ops)
+							r.res, r.err = v, err
+							if err != nil || v == nil || v.Type() != variants.Float {
+								break
+							}
+							if fv := v.AsFloat(); !(fv >= 0 && fv < 1) {
+								r.extra = append(r.extra, v)
+								break
+							}
+						}
+					}()
 				case "panicfn":
 					call(r, "boom", nil, o.I == 1)
 				default:
@@ -292,7 +362,6 @@ func c08Run(p *Plan, x *Ctx, out *Outcome) {
 	}
 
 	clockDependent := 0
-	loc := time.FixedZone("SIM", zoneOff)
 	for ti, tp := range p.Tasks {
 		for i, o := range tp.Ops {
 			r := results[ti][i]
@@ -376,6 +445,15 @@ func c08Run(p *Plan, x *Ctx, out *Outcome) {
 				if v.Before(r.t0.Truncate(time.Second)) || v.After(r.t1) {
 					out.Violate("clock", "C08/ticks/outside-call-interval", "%s: Ticks() = %s = %s, simulated clock was %s .. %s", where, desc, v.UTC().Format(time.RFC3339), r.t0.UTC().Format(time.RFC3339Nano), r.t1.UTC().Format(time.RFC3339Nano))
 				}
+			case "rndbulk":
+				out.Probes["rnd_bulk_ops"]++
+				if r.err != nil || r.res.Type() != variants.Float {
+					out.Violate("random", "C08/rnd/not-a-float", "%s: %v err %v", where, desc, r.err)
+					break
+				}
+				if len(r.extra) > 0 {
+					out.Violate("random", "C08/rnd/out-of-range", "%s: among up to %d draws one was %v, not in [0,1)", where, o.J, r.extra[0].AsFloat())
+				}
 			case "rnd":
 				all := append([]*variants.Variant{r.res}, r.extra...)
 				errs := append([]error{r.err}, r.extraErr...)
@@ -403,7 +481,16 @@ func c08Run(p *Plan, x *Ctx, out *Outcome) {
 				}
 				v := r.res.AsDateTime().In(loc)
 				got := []int{v.Year(), int(v.Month()), v.Day(), v.Hour(), v.Minute(), v.Second()}
-				if fmt.Sprint(got) != fmt.Sprint(want) {
+				if namedZone {
+					// in a zone with daylight saving some civil times do not exist or exist twice: the reference
+					// is the standard library's reading of these civil fields in this zone
+					ref := time.Date(want[0], time.Month(want[1]), want[2], want[3], want[4], want[5], 0, loc)
+					if !r.res.AsDateTime().Equal(ref) {
+						out.Violate("zone", "C08/date/civil-fields", "%s: in zone %s the result is %s, the civil time %v in that zone is %s", where, loc, v.Format(time.RFC3339), want, ref.Format(time.RFC3339))
+					}
+					out.Probes["date_in_dst_zone"]++
+					clockDependent++
+				} else if fmt.Sprint(got) != fmt.Sprint(want) {
 					out.Violate("zone", "C08/date/civil-fields", "%s: in the run's zone (UTC%+d s) the result reads %v, the arguments were %v", where, zoneOff, got, want)
 				}
 				if zoneOff != 0 {
@@ -417,6 +504,10 @@ func c08Run(p *Plan, x *Ctx, out *Outcome) {
 				}
 				if len(o.Vs) >= 3 {
 					want := c08Weekday(int(o.Vs[0].I), int(o.Vs[1].I), int(o.Vs[2].I))
+					if namedZone {
+						// midnight may not exist on that day in this zone (Sao Paulo, Apia): standard library's reading
+						want = int(time.Date(int(o.Vs[0].I), time.Month(o.Vs[1].I), int(o.Vs[2].I), 0, 0, 0, 0, loc).Weekday())
+					}
 					if r.res.AsInteger() != want {
 						out.Violate("zone", "C08/dayofweek/wrong-day", "%s: DayOfWeek(Date(%d,%d,%d)) = %d in zone UTC%+d s, the civil date is weekday %d", where, o.Vs[0].I, o.Vs[1].I, o.Vs[2].I, r.res.AsInteger(), zoneOff, want)
 					}
